@@ -249,5 +249,5 @@ SUBCHECKS = [
              nontrivial=lambda c: any(_nt_grid(r) for r in c["rows"]), quick=300, thorough=20000, shards_quick=2, shards_thorough=8,
              rule="CSV rows through Standalone/mga2gda.grid2geoio: output rows parse back to the library's latitude / longitude within 1e-10 deg"),
     SubCheck("band_rejected", check_band_rejected, strategy=_outside_band, classes=T.tm_classes, quick=600, thorough=20000, shards_thorough=4,
-             rule="latitudes outside [-80, 84] raise ValueError (stated in the quantifier)"),
+             rule="latitudes outside [-80, 84] are rejected with an error in every call form (stated in the quantifier)"),
 ]
